@@ -56,7 +56,7 @@ CLAIMS = {
         'the step count has the documented floor/ceil/min structure. Permutation coverage over epochs and the step-count '
         'arithmetic over all hyper-parameters are NOT decided.',
    design='DESIGN.md section 4 C04; rules R-SEED, R-PERM, R-SIZE, R-PURE',
-   technique='who-may-call (global RNG) + role recovery from the window-copy statement + control-dependence checks'),
+   technique='who-may-call (global RNG) + role recovery from the window-copy statement + control-dependence checks + per-case constant propagation (case table) of the step-count computation'),
  'C05': dict(
    text='Static analysis (level "other"): decides the structural conditions that make evaluation a masked monoid fold: '
         'merge/reduce of every Stat combine field with the same field and return through the sanitising new() factory, '
@@ -147,7 +147,7 @@ CLAIMS = {
         'ranks by argsort of negated scores, accuracy is target == argmax, the confusion matrix sets exactly [target, predicted]. '
         'Agreement with an independent reference on all inputs is not decided.',
    design='DESIGN.md section 4 C14; rules R-SLICE, R-FOLD, R-PAIR, R-TYPE, R-ORDER',
-   technique='per-class contradiction/pairing lints over the AST with reaching-definition provenance'),
+   technique='per-class contradiction/pairing lints over the AST with reaching-definition provenance + finite tabulation of validation guards'),
  'C15': dict(
    text='Static analysis (level "other"), narrow: error discipline of both multi-client batchers (identity of the preprocessor '
         'and equality of the feature set checked on every path before a dataset\'s examples are used), conservation shape of '
